@@ -244,6 +244,7 @@ func init() {
 
 func postC10(res *RunResult) {
 	postNoPanic(res)
+	readerKindsOracle(res, 40)
 	// results must not depend on the schedule, and consumption must be exactly the frame
 	type key struct{ entry, data string }
 	first := map[key]string{}
@@ -384,6 +385,7 @@ func postC10(res *RunResult) {
 
 func postC11(res *RunResult) {
 	postNoPanic(res)
+	readerKindsOracle(res, 40)
 	// the File returned with the error holds the messages complete before the cut or fault: it cannot
 	// depend on whether the reader reports its error together with the last bytes or in a call of its
 	// own (the model's results depend on the bytes and the kind of end only: decode_out_eq_spec)
